@@ -21,7 +21,7 @@ CONSTANTS
     BadWeights,     \* weight option values that are not finite decimal numbers
     BadGlobs,       \* prefixes whose path is not a valid glob pattern
     QuoteTokens,    \* tags / options containing a double quote
-    LowerHost       \* function: prefix as registered -> prefix with the host part in lower case
+    LowerHost       \* function: prefix as registered -> prefix with the host part in lower case (identity elsewhere)
 
 SeqToSet(q) == {q[i] : i \in DOMAIN q}
 OptKey(o) == o.k
